@@ -33,18 +33,26 @@ RespFeat(s) ==
      clAtAdaptor |-> AtAdaptor(s).clhdr >= 0,
      \* response to HEAD that announces the length of the would-be body
      headWithLength |-> s.head /\ AtCompress(s).gocl > 0,
+     \* a bodiless answer (HEAD, 304) whose headers declare the length of the representation
+     bodilessWithLength |-> NoBody(s) /\ AtCompress(s).clhdr >= 0,
      transparentGunzip |-> AtCompress(s).label # BackendResp(s).label,
      \* a body that breaks off is handed on as a stream after its Content-Length header was dropped
      brokenUnframedStream |-> s.short /\ AtAdaptor(s).streamed /\ S_RespAdaptor(AtAdaptor(s), s, AllFixed).clhdr < 0]
 
 RespVec(s) ==
     [dir |-> "resp", s |-> s, feat |-> RespFeat(s), replaces |-> ReplacesBody(s.rsa), minLength |-> IF s.comp = "off" THEN -1 ELSE MinLength(s.comp),
-     reqs |-> Reqs(s),
+     reqs |-> Reqs(s), parOk |-> s \in ParScn,
      \* one prediction per request of the sequence
      exps |-> [kk \in 1..Reqs(s) |-> Outcome(ExchangeK(DefaultReqScn, s, AllFixed, kk))]]
 
+(* dimensions that no stage operator and no clause depends on: the driver spreads their values over the
+   cases (media type of the backend's response / of the client's request body; number of exchanges in
+   flight at the same time on one proxy instance, see ProxyMsgPar) *)
+Dims == [dir |-> "dims", ctypes |-> CTypeSeq, par |-> ParDegrees]
+
 Init == \/ kind = "req" /\ \E s \in ReqSpace : out = ToJson(ReqVec(s))
         \/ kind = "resp" /\ \E s \in RespSpace : out = ToJson(RespVec(s))
+        \/ kind = "dims" /\ out = ToJson(Dims)
 Next == UNCHANGED <<out, kind>>
 Spec == Init /\ [][Next]_<<out, kind>>
 =============================================================================
